@@ -6,7 +6,7 @@ import math
 from typing import Any, Dict, List, Optional, Tuple
 
 from .. import driver
-from ..common import Ctx, b2f, f2b, import_repo, rel_close, ulp_diff
+from ..common import Ctx, b2f, f2b, import_repo, near, rel_close
 
 LEVEL = "proof"
 EXPLANATION = (
@@ -224,7 +224,7 @@ def run(ctx: Ctx) -> None:
                 ctx.disagree("lr_scale", case, "error", impl, THMS)
                 continue
             m = src * scale[k]
-            ok = ulp_diff(m, impl) <= 4 if case["lr_kind"] != "t32" else rel_close(m, impl, 2.0 ** -21)
+            ok = near(m, impl) if case["lr_kind"] != "t32" else rel_close(m, impl, 2.0 ** -21)
             if not ok:
                 bad += 1
                 if bad <= 20:
